@@ -88,6 +88,7 @@ type Unit struct {
 	sentinels  map[string]Term
 	lockSnaps  map[string]*State
 	inlineSites []token.Pos // call positions (outermost first) of the inlined callees being executed
+	curBin      string // source text of the binary expression being evaluated (obligation names)
 	loopRegion  bool // modified() is computing a loop's modified set
 	forceInline map[*types.Func]bool // bounded units: inline these (recursive) callees instead of using contracts
 	boundedNote string
